@@ -267,13 +267,6 @@ theorem c17_request_eq_ref_nosrc (ext : Ext) (scheme host tail : Bytes) (t : Nat
 
 /-! Non-vacuity -/
 
-def c17Ext : Ext where
-  psl := fun h =>
-    if hasSuffix h (lit "co.uk") then (lit "co.uk", true)
-    else if hasSuffix h (lit "com") then (lit "com", true) else ([], false)
-  parseAddr := fun _ => none
-  parsePrefix := fun _ => none
-  pat := fun _ _ _ => false
 
 example : (effectiveTLDPlusOne c17Ext (lit "www.example.co.uk")).toOption = some (lit "example.co.uk") := by decide
 example : (effectiveTLDPlusOne c17Ext (lit "co.uk")).toOption = some [] := by decide
